@@ -26,7 +26,7 @@ import (
 // client-boundary histories), M-inject (deterministic schedule-point injection).
 
 // ---------------------------------------------------------------------------
-// state catalogue: passthrough (0) + 6 configurations that differ in every observable aspect;
+// state catalogue: passthrough (0) + 8 configurations that differ in every observable aspect;
 // every one allows https://common.example, so that one preflight identifies the configuration.
 
 const c07Invalid = -1
@@ -39,7 +39,16 @@ var c07Catalogue = []*cors.Config{
 	{Origins: []string{"https://common.example"}, Credentialed: true, Methods: []string{"PURGE"}, RequestHeaders: []string{"X-Four"}, MaxAgeInSeconds: -1, ExtraConfig: cors.ExtraConfig{PreflightSuccessStatus: 204, PrivateNetworkAccess: true}},
 	{Origins: []string{"https://common.example", "https://five.example"}, Methods: []string{"QUERY"}, RequestHeaders: []string{"X-Five"}, MaxAgeInSeconds: 505, ResponseHeaders: []string{"X-Exp-Five"}, ExtraConfig: cors.ExtraConfig{PreflightSuccessStatus: 205, PrivateNetworkAccessInNoCORSModeOnly: true}},
 	{Origins: []string{"https://common.example:*", "https://*.six.example"}, Methods: []string{"LINK"}, RequestHeaders: []string{"X-Six-A", "X-Six-B"}, ResponseHeaders: []string{"X-Exp-Six-A", "X-Exp-Six-B"}, ExtraConfig: cors.ExtraConfig{PreflightSuccessStatus: 206}},
+	// 7 EXTENDS configuration 1: every list of 1 is a prefix of the corresponding list of 7 (same switches), with appended origin
+	// patterns that share host suffixes with the existing ones - the shape an incremental Reconfigure would special-case
+	// (lesson of seeded change C07-h: state shared between the outgoing and the incoming configuration)
+	{Origins: []string{"https://common.example", "https://one.example", "https://*.one.example", "https://xone.example", "https://n.example"}, Methods: []string{"PUT", "MOVE"}, RequestHeaders: []string{"X-One", "X-Seven"}, MaxAgeInSeconds: 707, ResponseHeaders: []string{"X-Exp-One", "X-Exp-Seven"}, ExtraConfig: cors.ExtraConfig{PreflightSuccessStatus: 207}},
+	// 8 is 2 with its lists permuted and one element dropped from each (a SHRINKING reconfiguration)
+	{Origins: []string{"https://*.two.example", "https://common.example"}, Credentialed: true, Methods: []string{"PATCH"}, RequestHeaders: []string{"Authorization"}, MaxAgeInSeconds: 808, ResponseHeaders: []string{"X-Exp-Two"}, ExtraConfig: cors.ExtraConfig{PreflightSuccessStatus: 208}},
 }
+
+// c07Related: catalogue entries whose lists extend / shrink one another
+var c07Related = map[int]int{1: 7, 7: 1, 2: 8, 8: 2}
 
 var c07InvalidCfg = cors.Config{Origins: []string{"https://common.example", "https://bad origin"}, Methods: []string{"EVIL"}, MaxAgeInSeconds: 909, ExtraConfig: cors.ExtraConfig{PreflightSuccessStatus: 299}}
 
@@ -53,7 +62,11 @@ var c07ReqKinds = []Req{
 	preflightReq("https://common.example", "GET", nil, true),                                                 // 6 preflight failing at the PNA step where PNA is off
 	preflightReq("https://common.example", "UNLISTED", nil, false),                                           // 7 preflight failing at the method step
 	preflightReq("https://common.example", "GET", []string{"x-unlisted"}, false),                             // 8 preflight failing at the header step
-	preflightReq("https://common.example", "PUT", []string{"x-one"}, false),                                  // 9 preflight succeeding for configuration 1 only
+	preflightReq("https://common.example", "PUT", []string{"x-one"}, false),                                  // 9 preflight succeeding for configurations 1 and 7 only
+	actualReq("GET", "https://sub.one.example"),                                                              // 10 actual GET, origin allowed by configuration 7 only (appended pattern)
+	preflightReq("https://sub.one.example", "MOVE", []string{"x-seven"}, false),                              // 11 preflight succeeding for configuration 7 only
+	preflightReq("https://two.example:8443", "PATCH", []string{"authorization"}, false),                      // 12 preflight succeeding for configuration 2 only (pattern dropped by 8)
+	actualReq("POST", "https://a.two.example"),                                                               // 13 actual POST, origin allowed by 2 and 8
 }
 
 // operations run sequentially after every injected mini-history
@@ -618,7 +631,7 @@ func c07StressHistory(r *Run, l *Local, g *c07Golden, model porcupine.Model, rng
 
 func TestVerif_C07(t *testing.T) {
 	r := newRun(t, "C07")
-	r.Rule("M-inject: every start state (passthrough + 6 configurations x debug) x every outer operation (10 request kinds, Reconfigure to each catalogue entry / nil / invalid, SetDebug, Config) x inner operation sequences (single writers, Config, requests, and 2-3 operation sequences such as Reconfigure(nil);Reconfigure(B)) injected at every schedule point of the outer operation " +
+	r.Rule("M-inject: every start state (passthrough + 8 configurations x debug, two of them extending / shrinking another entry list by list) x every outer operation (14 request kinds, Reconfigure to each catalogue entry / nil / invalid, SetDebug, Config) x inner operation sequences (single writers, Config, requests, and 2-3 operation sequences such as Reconfigure(nil);Reconfigure(B)) injected at every schedule point of the outer operation " +
 		"(k-th Header() call, WriteHeader, Write, handler entry/exit, and the lock-boundary yield points generated from the current text of /repo); M-lin: stress histories (8 clients x 25 operations on one middleware, GOMAXPROCS 2/4/16, three yield-hook profiles) under -race; every history is checked by porcupine against the sequential (configuration, debug) model with golden responses. " +
 		"evaluation = one recorded operation; non-trivial = distinct (outer operation, injection point, inner sequence) triples plus distinct stress interleavings (hash of the ticket-ordered call/return sequence)")
 	r.Assume("operations are recorded at the client boundary with tickets from one atomic counter; golden responses and Config() normal forms are computed sequentially on fresh middlewares beforehand; responses identify their state (all 13 states are pairwise distinguishable)")
@@ -690,6 +703,11 @@ func TestVerif_C07(t *testing.T) {
 			{{Kind: "reconf", Arg: other}, {Kind: "debug", Arg: 1}},
 			{{Kind: "reconf", Arg: other}, {Kind: "debug", Arg: 0}},
 			{{Kind: "reconf", Arg: other}, {Kind: "reconf", Arg: third}, {Kind: "req", Arg: 7}},
+		}
+		if rel, ok := c07Related[s.Cfg]; ok { // the entry that extends / shrinks the current one
+			in = append(in, []c07Op{{Kind: "reconf", Arg: rel}},
+				[]c07Op{{Kind: "reconf", Arg: rel}, {Kind: "reconf", Arg: same}},
+				[]c07Op{{Kind: "debug", Arg: 1 - b2i(s.Debug)}, {Kind: "reconf", Arg: rel}})
 		}
 		if same != 0 {
 			in = append(in, []c07Op{{Kind: "reconf", Arg: 0}, {Kind: "reconf", Arg: same}},
